@@ -15,7 +15,7 @@ Definition rm_list_step (s : schema) (extract : bool) (T : pset) (t : listT)
   let has := rm_has T e in
   let subset := rm_subset T e in
   if has && negb extract then rest
-  else if has && ps_empty subset then remove_items s extract (list_elem t) T item :: rest
+  else if has && ps_empty subset then remove_items s extract (list_elem t) subset item :: rest
   else if negb (ps_empty subset) then remove_items s extract (list_elem t) subset item :: rest
   else if extract then rest
   else item :: rest.
@@ -31,7 +31,7 @@ Definition rm_map_step (s : schema) (extract : bool) (T : pset) (t : mapT)
   let e := PEField k in
   let ft := field_type t k in
   if ps_has [e] T then
-    if extract then (k, remove_items s extract ft T val) :: rest
+    if extract then (k, remove_items s extract ft (ps_with_prefix e T) val) :: rest
     else rest
   else
     let subset := ps_with_prefix e T in
